@@ -23,7 +23,7 @@ Spec == Init /\ [][Next]_<<kind, owner, classes, place>>
 
 (* the wrappers as coded: construct the entry (any failure => error item), then compare identifiers *)
 Constructs(c) == c \notin {"fetch_fails", "not_activity", "not_post", "forged_author", "redirected_forged"}
-IdentityMatches(c) == c \in {"legit_emb", "legit_ref", "legit_actor_emb", "legit_noid", "legit_stub", "legit_announce", "legit_author_no_actor"}
+IdentityMatches(c) == c \in {"legit_emb", "legit_ref", "legit_actor_emb", "legit_noid", "legit_stub", "legit_announce", "legit_author_no_actor", "legit_announce_wrapped"}
 ShownM == [i \in 1..Len(classes) |-> IF Constructs(classes[i]) /\ IdentityMatches(classes[i]) THEN "genuine" ELSE "error"]
 Holds == ListingOK(classes, ShownM)
 GenEmit == GenOn => PrintT("GEN " \o ToJson([kind |-> kind, owner |-> owner, classes |-> classes, place |-> place]))
